@@ -324,6 +324,210 @@ def rule_incumbent_not_overwritten_blindly(eng, rep, rule="C04-5.incumbent-is-re
     rep.require_count(rule, "call sites of choose_point_to_replace", n, 3)
 
 
+def rule_ratio_sign_is_the_sign_of_the_actual_reduction(eng, rep, rule="C04-5b.a-positive-ratio-means-the-objective-was-reduced"):
+    """C04-5 accepts `ratio > 0` (ratio from calculate_ratio) as 'the new point is better'.  ratio = actual / predicted has the sign of the actual reduction only
+    if the predicted reduction is not negative; so inside calculate_ratio every path from the true edge of `predicted < 0` to the return must hand back an exit
+    (which the caller tests before it looks at the ratio, C07-19) -- a negative predicted reduction that is merely logged makes a *worse* point look better, and
+    the incumbent is then overwritten without having been saved (seed C04-x)."""
+    cr = eng.fn("controller.Controller.calculate_ratio")
+    cfg = eng.cfg(cr)
+    rets = [n for n, d in cfg.g.nodes(data=True) if d["kind"] == "stmt" and isinstance(d["ast"], ast.Return) and d["ast"].value is not None]
+    n = 0
+    for rn in rets:
+        rv = cfg.ast_of(rn).value
+        if not (isinstance(rv, ast.Tuple) and len(rv.elts) == 2 and isinstance(rv.elts[1], ast.Name)):
+            rep.unknown(rule, eng.where(cr, rv), "calculate_ratio does not return a (ratio, exit) pair of locals")
+            continue
+        exitvar = rv.elts[1].id
+        ratio_e = rv.elts[0]
+        site = eng.where(cr, rv)
+        quots = []
+        if isinstance(ratio_e, ast.Name):
+            for dn in cfg.defs_reaching(cfg.ast_of(rn), ratio_e.id):
+                ds = cfg.ast_of(dn)
+                if isinstance(ds, ast.Assign) and isinstance(ds.value, ast.BinOp) and isinstance(ds.value.op, ast.Div):
+                    quots.append((dn, ds.value))
+                else:
+                    quots.append((dn, None))
+        elif isinstance(ratio_e, ast.BinOp) and isinstance(ratio_e.op, ast.Div):
+            quots.append((rn, ratio_e))
+        if not quots or any(q is None for (_d, q) in quots):
+            rep.unknown(rule, site, "the returned ratio is not a quotient of two locals on every reaching definition")
+            continue
+        for (dn, q) in quots:
+            n += 1
+            den = q.right
+            if not isinstance(den, ast.Name):
+                rep.unknown(rule, site, "denominator of the ratio is not a local (%s)" % short(den))
+                continue
+            # cond nodes that test the sign of the denominator
+            tests = []
+            for cn in cfg.nodes_of_kind("cond"):
+                for outcome in (True, False):
+                    a = atom_of(cfg.ast_of(cn), outcome)
+                    # denominator negative:  den < 0  (lt(den, 0))
+                    if a.op == "lt" and ekey(a.lhs) == den.id and const_value(a.rhs) == 0:
+                        tests.append((cn, outcome))
+            if not tests:
+                rep.bad(rule, site, "controller.Controller.calculate_ratio|sign-of-prediction-untested|%s" % den.id,
+                        "the ratio %s is returned without any test of the sign of `%s`: a step with a negative predicted AND a negative actual reduction gets a positive ratio, "
+                        "is taken for an improvement and may overwrite the incumbent" % (short(q), den.id))
+                continue
+            exit_stores = [m for m, d in cfg.g.nodes(data=True) if d["kind"] == "stmt" and isinstance(d["ast"], ast.Assign)
+                           and any(isinstance(t, ast.Name) and t.id == exitvar for t in d["ast"].targets)
+                           and isinstance(d["ast"].value, ast.Call) and not is_none(d["ast"].value)]
+            none_stores = [m for m, d in cfg.g.nodes(data=True) if d["kind"] == "stmt" and isinstance(d["ast"], ast.Assign)
+                           and any(isinstance(t, ast.Name) and t.id == exitvar for t in d["ast"].targets) and is_none(d["ast"].value)]
+            bad_path = None
+            for (cn, outcome) in tests:
+                # the denominator must not be re-assigned between the test and the division
+                for m, e in cfg.succ(cn):
+                    if e.get("label") != outcome:
+                        continue
+                    pth = cfg.path_avoiding(m, rn, exit_stores) if m not in exit_stores else None
+                    if m == rn:
+                        pth = [m]
+                    if pth is not None:
+                        bad_path = (cn, pth)
+                    else:
+                        # an exit stored on the negative branch must not be cleared again before the return
+                        for es in exit_stores:
+                            for ns in none_stores:
+                                if cfg.path_avoiding(es, ns, []) is not None and cfg.path_avoiding(ns, rn, exit_stores) is not None and cfg.path_avoiding(m, es, []) is not None:
+                                    bad_path = (cn, [es, ns, rn])
+            redefined = [m for m, d in cfg.g.nodes(data=True) if d["kind"] == "stmt" and den.id in cfg.defs_of(m)[0]
+                         and any(cfg.path_avoiding(cn, m, []) is not None for (cn, _o) in tests) and cfg.path_avoiding(m, dn, []) is not None and m != dn]
+            if bad_path is not None:
+                rep.bad(rule, site, "controller.Controller.calculate_ratio|negative-prediction-returned-without-exit|%s" % den.id,
+                        "`%s < 0` can be true on a path to the return on which no exit is handed back (%s): ratio = %s is then positive for a point that is WORSE, the caller "
+                        "takes it for an improvement (`ratio > 0`) and may overwrite the incumbent without saving it" % (den.id, exitvar, short(q)),
+                        path=[cfg.describe(x) for x in bad_path[1]] if hasattr(cfg, "describe") else None)
+            elif redefined:
+                rep.unknown(rule, site, "`%s` is re-assigned between its sign test and the division" % den.id)
+            else:
+                rep.ok(rule, site, "every path on which `%s < 0` holds returns a non-None %s: where the caller reads the ratio, its sign is the sign of the actual reduction" % (den.id, exitvar))
+    rep.require_count(rule, "ratio quotients returned by calculate_ratio", n, 1)
+
+
+def rule_furthest_point_loops_stop_before_the_incumbent(eng, rep, rule="C04-7.loops-over-the-points-furthest-from-the-incumbent-never-reach-the-incumbent"):
+    """`np.argsort(distances_to_xopt())[::-1]` lists the points from the furthest to the closest; its last entry is the incumbent itself (distance 0).  A loop that
+    overwrites the listed points (geometry_step / change_point) must stop before that entry -- nothing saves the incumbent first.  The number of passes is bounded
+    either by the loop's own limit (`min(.., len(L) - 1)`, `min(.., npt() - 1)`, `L[:-1]`) or by every caller's argument (`min(.., npt() - 1)`); with neither the
+    best point found can be replaced by a geometry point (seed C18-x removed the limit in the callee and widened the caller's cap by one)."""
+    OVERWRITERS = ("controller.Controller.geometry_step", "model.Model.change_point")
+    n = 0
+
+    def is_desc_argsort(e):
+        # np.argsort(X)[::-1]   (optionally sliced again)
+        cur = e
+        sl = None
+        if isinstance(cur, ast.Subscript) and isinstance(cur.slice, ast.Slice) and not _is_reverse(cur.slice):
+            sl = cur.slice
+            cur = cur.value
+        if isinstance(cur, ast.Subscript) and isinstance(cur.slice, ast.Slice) and _is_reverse(cur.slice) and isinstance(cur.value, ast.Call) \
+                and ekey(cur.value.func).endswith("argsort"):
+            return cur.value.args[0] if cur.value.args else None, sl
+        return None, None
+
+    def _is_reverse(slc):
+        return slc.lower is None and slc.upper is None and slc.step is not None and const_value(slc.step) == -1
+
+    def excl(e, lname):
+        """e is `len(L) - c` or `<..>.npt() - c` with c >= 1"""
+        if isinstance(e, ast.BinOp) and isinstance(e.op, ast.Sub) and (const_value(e.right) or 0) >= 1:
+            l = e.left
+            if isinstance(l, ast.Call) and isinstance(l.func, ast.Name) and l.func.id == "len" and l.args and ekey(l.args[0]) == lname:
+                return True
+            if isinstance(l, ast.Call) and isinstance(l.func, ast.Attribute) and l.func.attr == "npt" and not l.args:
+                return True
+        return False
+
+    def parts(e):
+        if isinstance(e, ast.Call) and isinstance(e.func, ast.Name) and e.func.id == "min":
+            out = []
+            for a in e.args:
+                out += parts(a)
+            return out
+        return [e]
+
+    for fi in eng.prog.functions.values():
+        if fi.is_lambda or fi.cls != "Controller":
+            continue
+        lists = {}
+        for node in eng.prog.own_nodes(fi):
+            if isinstance(node, ast.Assign) and len(node.targets) == 1 and isinstance(node.targets[0], ast.Name):
+                src, sl = is_desc_argsort(node.value)
+                if src is not None:
+                    lists[node.targets[0].id] = (node, src, sl)
+        if not lists:
+            continue
+        cfg = eng.cfg(fi)
+        for lname, (ldef, src, lslice) in lists.items():
+            # the sorted quantity is the distance to the incumbent
+            srcs = [src]
+            if isinstance(src, ast.Name):
+                srcs = [cfg.ast_of(d).value for d in cfg.defs_reaching(ldef, src.id) if isinstance(cfg.ast_of(d), ast.Assign)]
+            if not srcs or not all("distances_to_xopt" in ekey(x) for x in srcs):
+                continue
+            for loop in [x for x in eng.prog.own_nodes(fi) if isinstance(x, ast.For)]:
+                idx = None
+                limits = []
+                if isinstance(loop.iter, ast.Call) and isinstance(loop.iter.func, ast.Name) and loop.iter.func.id == "range" and len(loop.iter.args) == 1 \
+                        and isinstance(loop.target, ast.Name):
+                    uses = [x for st in loop.body for x in ast.walk(st) if isinstance(x, ast.Subscript) and ekey(x.value) == lname and ekey(x.slice) == loop.target.id]
+                    if not uses:
+                        continue
+                    limits = parts(loop.iter.args[0])
+                elif ekey(loop.iter) == lname:
+                    limits = []
+                elif isinstance(loop.iter, ast.Subscript) and ekey(loop.iter.value) == lname and isinstance(loop.iter.slice, ast.Slice):
+                    up = loop.iter.slice.upper
+                    limits = parts(up) if up is not None else []
+                    if up is not None and (const_value(up) or 0) <= -1:
+                        limits = [ast.parse("len(%s) - 1" % lname, mode="eval").body]
+                else:
+                    continue
+                # does the body overwrite a point?
+                over = [c for st in loop.body for c in ast.walk(st) if isinstance(c, ast.Call) and eng.res.calls.get(id(c)) is not None
+                        and any(t.fid in OVERWRITERS for t in eng.res.calls[id(c)].targets)]
+                if not over:
+                    continue
+                n += 1
+                site = eng.where(fi, loop)
+                if lslice is not None and lslice.upper is not None:
+                    limits = limits + parts(lslice.upper)
+                    if (const_value(lslice.upper) or 0) <= -1:
+                        limits.append(ast.parse("len(%s) - 1" % lname, mode="eval").body)
+                okc = any(excl(e, lname) for e in limits)
+                via = None
+                if not okc:
+                    # a limit that is a parameter: every caller must pass min(.., npt() - 1)
+                    for e in limits:
+                        if isinstance(e, ast.Name) and e.id in fi.all_params:
+                            callers = eng.calls_to(fi.fid)
+                            allok = bool(callers)
+                            for ci in callers:
+                                from .common import arg_of, expand_locals
+                                a = arg_of(eng, ci.node, fi, e.id)
+                                if a is None:
+                                    allok = False
+                                    continue
+                                ccfg = eng.cfg(ci.caller)
+                                ax = expand_locals(ccfg, eng.prog.stmt_of(ci.node), a)
+                                if not any(excl(x, lname) for x in parts(ax)):
+                                    allok = False
+                            if allok:
+                                okc = True
+                                via = e.id
+                if okc:
+                    rep.ok(rule, site, "the loop over `%s` (furthest first, incumbent last) makes at most len - 1 passes%s" % (lname, " (every caller bounds `%s` by npt() - 1)" % via if via else ""))
+                else:
+                    rep.bad(rule, site, "%s|loop-can-reach-the-incumbent|%s" % (fi.fid, lname),
+                            "the loop over `%s` (points sorted from the furthest to the closest; the last entry is the incumbent) is bounded by neither `len(%s) - 1` / `npt() - 1` nor by its "
+                            "callers: with enough passes %s overwrites the incumbent, which nothing has saved" % (lname, lname, short(over[0].func)))
+    rep.require_count(rule, "loops that overwrite points in order of decreasing distance from the incumbent", n, 2)
+
+
 def run(eng, rep):
     rep.explain("C04: typestate 'pending evaluation result' over every CFG path after each of the evaluate_objective call sites (T3): the "
                 "result must reach change_point/add_new_point/save_point unless nothing was evaluated or the value is NaN; the incumbent save "
@@ -336,5 +540,7 @@ def run(eng, rep):
     rep.guarded(rule_selection, eng, rep, "C04-3.selection-prefers-the-smaller-value", {"ORDER", "NONE_HOLDER"}, "C04")
     rep.guarded(rule_exits_select, eng, rep)
     rep.guarded(rule_incumbent_not_overwritten_blindly, eng, rep)
+    rep.guarded(rule_ratio_sign_is_the_sign_of_the_actual_reduction, eng, rep)
+    rep.guarded(rule_furthest_point_loops_stop_before_the_incumbent, eng, rep)
     from .records import rule_eval_results_are_fresh
     rep.guarded(rule_eval_results_are_fresh, eng, rep, "C04-6.evaluation-results-are-fresh-arrays")
